@@ -383,6 +383,23 @@ class Export(object):
                 # original dataset, we also create a new basin that
                 # refers to the original dataset itself.
                 basin_list = [bn.as_dict() for bn in ds.basins]
+                if ds.format == "hierarchy":
+                    # The basins of a hierarchy child are the basins of its
+                    # root parent. Their mapping refers to the events of
+                    # the root parent, so we have to translate it to the
+                    # events of the child first.
+                    from .fmt_hierarchy import map_indices_child2root
+                    idx_root = map_indices_child2root(
+                        child=ds,
+                        child_indices=np.arange(len(ds)))
+                    for bn_dict in basin_list:
+                        if bn_dict.get("basin_type") == "internal":
+                            continue
+                        bn_map = bn_dict.get("basin_map")
+                        if bn_map is None:
+                            bn_dict["basin_map"] = idx_root
+                        else:
+                            bn_dict["basin_map"] = bn_map[idx_root]
                 # In addition to the upstream basins, also store a reference
                 # to the original file from which the export was done.
                 if ds.format in get_basin_classes():
